@@ -720,16 +720,21 @@ impl BitVector {
         start: usize,
         end: usize,
     ) -> Result<()> {
+        if start == end {
+            return Ok(());
+        }
         let start_block = start / BITS_PER_BLOCK;
         let end_block = (end - 1) / BITS_PER_BLOCK;
+        // Blocks that lie entirely inside [start, end): only these may be combined as whole words
+        let first_full = (start + BITS_PER_BLOCK - 1) / BITS_PER_BLOCK;
+        let full_end = end / BITS_PER_BLOCK; // exclusive
 
-        // Process blocks using AVX2 (4 u64s at a time)
+        // Process the full blocks using AVX2 (4 u64s at a time)
         let avx2_blocks = 4;
-        let mut block_idx = start_block;
+        let mut block_idx = first_full;
 
         unsafe {
-            // Process 4 blocks at a time with AVX2
-            while block_idx + avx2_blocks <= end_block + 1
+            while block_idx + avx2_blocks <= full_end
                 && block_idx + avx2_blocks <= self.blocks.len()
                 && block_idx + avx2_blocks <= other.blocks.len()
             {
@@ -750,18 +755,22 @@ impl BitVector {
                 block_idx += avx2_blocks;
             }
         }
+        let simd_done = first_full..block_idx;
 
-        // Handle remaining blocks with scalar operations
-        while block_idx <= end_block
-            && block_idx < self.blocks.len()
-            && block_idx < other.blocks.len()
-        {
-            match op {
-                BitwiseOp::And => self.blocks[block_idx] &= other.blocks[block_idx],
-                BitwiseOp::Or => self.blocks[block_idx] |= other.blocks[block_idx],
-                BitwiseOp::Xor => self.blocks[block_idx] ^= other.blocks[block_idx],
+        // Every other block of the range: combine under a mask of the bits inside [start, end)
+        for b in start_block..=end_block {
+            if simd_done.contains(&b) || b >= self.blocks.len() || b >= other.blocks.len() {
+                continue;
             }
-            block_idx += 1;
+            let lo = start.max(b * BITS_PER_BLOCK) - b * BITS_PER_BLOCK;
+            let hi = end.min((b + 1) * BITS_PER_BLOCK) - b * BITS_PER_BLOCK;
+            let mask = if hi - lo == BITS_PER_BLOCK { !0u64 } else { ((1u64 << (hi - lo)) - 1) << lo };
+            let combined = match op {
+                BitwiseOp::And => self.blocks[b] & other.blocks[b],
+                BitwiseOp::Or => self.blocks[b] | other.blocks[b],
+                BitwiseOp::Xor => self.blocks[b] ^ other.blocks[b],
+            };
+            self.blocks[b] = (self.blocks[b] & !mask) | (combined & mask);
         }
 
         Ok(())
